@@ -395,45 +395,54 @@ def rule_join(ctx):
 
 
 def rule_indep(ctx):
-    """Index and candidate rank of _add depend on (key, seed, p, m) only."""
+    """Index and candidate rank of _add depend on (key, seed, p, m) only (value-dependency closure over the walker's terms)."""
+    from .deps import Deps, PURE_CALLS
     F = facts_of(ctx)
     k = hll_kernels(F)["add"]
     reg = F.param_for(k, "registers")
     nlzf = nlz_function(F)
     allowed_params = {p for p in k.params if p != reg}
-    allowed_calls = {"fasthash64", nlzf.name}
-    for n in walk_no_nested(k.node):
-        tgt = None
-        if isinstance(n, ast.Assign) and isinstance(n.targets[0], ast.Subscript) and dotted(n.targets[0].value) == reg:
-            tgt, val = n.targets[0], n.value
-        elif isinstance(n, ast.AugAssign) and isinstance(n.target, ast.Subscript) and dotted(n.target.value) == reg:
-            tgt, val = n.target, n.value
-        if tgt is None:
-            continue
-        # candidate expression: the non-old operand of max(), or the whole value
-        cand = [val]
-        if isinstance(val, ast.Call) and dotted(val.func) in ("max",) and len(val.args) == 2:
-            cand = [a for a in val.args if unparse(a) != unparse(tgt)]
-        names, calls, loads = backward_slice(k, [tgt.slice] + cand)
-        bad_loads = [l for l in loads if dotted(l.value) not in (None,) and not isinstance(l.value, ast.Name) or
-                     (isinstance(l.value, ast.Name) and k.ptypes.get(l.value.id) is not None and k.ptypes[l.value.id].is_array)]
-        from .flow import cast_target
-        bad_calls = [c for c in calls if c not in allowed_calls and c not in ("max", "min", "len")
-                     and not (c.split(".")[-1] in ("uint8", "uint16", "uint32", "uint64", "int64", "int"))]
-        free = {x for x in names if x in k.params}
-        globs = {x for x in names if x not in k.params and x not in _assigned(k)} - {"np", "uint8", "uint16", "uint32", "uint64"}
-        okk = not bad_loads and not bad_calls and free <= allowed_params and not globs
-        why = ""
-        if bad_loads:
-            why = "depends on array contents `%s` (state-dependent update)" % unparse(bad_loads[0])
-        elif bad_calls:
-            why = "depends on call(s) %s" % sorted(bad_calls)
-        elif globs:
-            why = "depends on module globals %s" % sorted(globs)
-        elif not free <= allowed_params:
-            why = "depends on %s" % sorted(free - allowed_params)
-        ctx.ob("indep", k, n, src(k, n), "register index and candidate rank are functions of (key, seed, p, m) only: no sketch state, "
-               "no global, no impure call", okk, why)
+    allowed_calls = {"fasthash64", nlzf.name} | PURE_CALLS
+    w = F.walk(k, summaries=SUMMARIES)
+    D = Deps(w)
+    stores = [e for e in w.events if e.kind in ("store", "slicestore") and e.arr.name == reg]
+    for g in group_by_node(stores):
+        res = []
+        for e in g:
+            if e.kind != "store" or not isinstance(e.value, Num):
+                res.append((None, "register update not understood"))
+                continue
+            cand = e.value.lin
+            t = cand.single_term()
+            oldt = e.old
+            if t is not None and t[0] == "max" and oldt is not None:
+                mm = w.P.minmax.get(t)
+                if mm and mm[1] == Lin.term(oldt):
+                    cand = mm[2]
+                elif mm and mm[2] == Lin.term(oldt):
+                    cand = mm[1]
+            deps = set()
+            for i in e.idx:
+                deps |= D.of_lin(i.lin)
+            deps |= D.of_lin(cand)
+            arrays = sorted(x[1] for x in deps if x[0] == "array")
+            calls = sorted(x[1] for x in deps if x[0] == "call" and x[1] not in allowed_calls)
+            unknown = sorted(x[1] for x in deps if x[0] in ("unknown", "attr"))
+            params = sorted(x[1] for x in deps if x[0] == "param" and x[1] not in allowed_params)
+            why = ""
+            if arrays:
+                why = "depends on array contents `%s` (state-dependent update)" % arrays[0]
+            elif calls:
+                why = "depends on call(s) %s" % calls
+            elif unknown:
+                why = "depends on %s" % unknown
+            elif params:
+                why = "depends on %s" % params
+            res.append((not why, why or "index and candidate depend on %s only" % sorted(x[1] for x in deps if x[0] == "param"), fact_strs(e)))
+        agg(ctx, "indep", k, g[0].node, src(k, g[0].node), "register index and candidate rank are functions of (key, seed, p, m) only: no sketch state, "
+            "no global, no impure call", res)
+    if not stores:
+        ctx.ob("indep", k, k.node, k.name, "the add kernel updates the registers", False, "no register store")
 
 
 def _assigned(func):
